@@ -173,6 +173,7 @@ func partReceiptAnswers(c *check.Ctx, a *acc) {
 	c.Coverage["receipt_requests_answered"] = st.answered
 	c.Coverage["receipt_too_busy_answers"] = st.tooBusy
 	c.Coverage["receipt_queue_full_gate_reached"] = reached
+	c.Coverage["receipt_one_free_slot_rounds"] = st.raceRounds
 	a.add(st.submitted, st.answered, "receipt requests: pipelined bursts from 8 connections and a deterministic queue-full scenario (verifier held at a gate, 140 submissions against 128 slots): every request id answered exactly once - accepted, bad request or too busy, never two of them",
 		map[string]any{"engine": "C19 receipts", "submitted": st.submitted, "too_busy": st.tooBusy})
 }
@@ -217,6 +218,7 @@ func awaitForwards(p *sut.Proc) bool {
 
 type c19stats struct {
 	submitted, valid, invalid, empty, forwarded, answered, tooBusy int
+	raceRounds                                                     int // rounds of simultaneous submissions with one slot free
 }
 
 // runReceiptScenario submits cases from nConn connections against a fresh SUT
@@ -563,6 +565,76 @@ func queueFull(c *check.Ctx, bin string, st *c19stats) bool {
 	if accepted != 129 || busy != total-129 {
 		c.Report(c19f("queue/capacity", trig, "with the verifier held, %d submissions were accepted and %d told too busy (want 129 and %d)", accepted, busy, total-129))
 	}
+	// --- one free slot, several submitters at the same instant: the verifier is
+	// stepped by one receipt (one slot becomes free, the verifier parks again on
+	// the next receipt), then every connection submits at once. Exactly one is
+	// accepted, the others are told too busy, and everybody is answered.
+	if accepted == 129 && busy == total-129 {
+		rounds := c.Pick(120, 1200)
+		for round := 0; round < rounds; round++ {
+			if _, err := p.RT("op=step&site=receipt.ReceiptHandler.VerifyPayload"); err != nil {
+				c.Inconc("G11 rounds: " + err.Error())
+				break
+			}
+			if _, err := p.RT("op=wait&site=receipt.ReceiptHandler.VerifyPayload&n=1&ms=4000"); err != nil {
+				c.Inconc("G11 rounds: the verifier did not come back to the gate")
+				break
+			}
+			rc := valid[round%len(valid)]
+			ids := make([]uint32, len(cls))
+			var wg sync.WaitGroup
+			start := make(chan struct{})
+			for i, cl := range cls {
+				ids[i] = cl.NextReqID()
+				wg.Add(1)
+				go func(i int, cl *scen.C) {
+					defer wg.Done()
+					<-start
+					cl.Send(&hagallpb.ReceiptRequest{Type: d.TReceiptReq, Timestamp: d.NewTag(), RequestId: ids[i], Receipt: fmt.Sprintf("%s#r%d-%d", rc.Receipt, round, i), Hash: rc.Hash, Signature: rc.Sig})
+				}(i, cl)
+			}
+			close(start)
+			wg.Wait()
+			acc, bz := 0, 0
+			stuck := false
+			for i, cl := range cls {
+				cl.Timeout = 5 * time.Second
+				win, err := cl.Barrier()
+				if err != nil {
+					c.Report(c19f("answer/connection-blocked-or-ended", trig, "round %d: %d connections submitted a receipt at the same instant with one slot free in the queue (verifier held); connection %d then got no pong for 5 s: its main loop is blocked submitting (%v)", round, len(cls), i, err))
+					stuck = true
+					break
+				}
+				n := 0
+				for _, e := range win {
+					if f := e.M.ProtoReflect().Descriptor().Fields().ByName("request_id"); f != nil && uint32(e.M.ProtoReflect().Get(f).Uint()) == ids[i] {
+						n++
+						if code, isErr := scen.IsErr(e); isErr && code == 503 {
+							bz++
+						} else if !isErr {
+							acc++
+						}
+					}
+				}
+				if n != 1 {
+					c.Report(c19f("answer/exactly-once", trig, "round %d: the receipt request %d of connection %d got %d answers", round, ids[i], i, n))
+					stuck = true
+					break
+				}
+			}
+			if stuck {
+				break
+			}
+			st.submitted += len(cls)
+			st.answered += acc + bz
+			st.tooBusy += bz
+			if acc != 1 || bz != len(cls)-1 {
+				c.Report(c19f("queue/capacity", trig, "round %d: one slot was free and %d connections submitted at the same instant: %d accepted, %d told too busy (want 1 and %d)", round, len(cls), acc, bz, len(cls)-1))
+				break
+			}
+			st.raceRounds++
+		}
+	}
 	p.RT("op=release&site=receipt.ReceiptHandler.VerifyPayload")
 	st.tooBusy += busy
 	st.submitted += total
@@ -612,12 +684,13 @@ func partReceipts(c *check.Ctx, a *acc) {
 	c.Coverage["posts_seen_at_fake_credit_service"] = st.forwarded
 	c.Coverage["too_busy_answers"] = st.tooBusy
 	c.Coverage["queue_full_gate_reached"] = gateReached
+	c.Coverage["one_free_slot_simultaneous_submission_rounds"] = st.raceRounds
 	nontrivial := st.valid + st.invalid
 	samples := []any{}
 	for _, rc := range allCases[0][:8] {
 		samples = append(samples, map[string]any{"engine": "C19 receipts", "case": rc.Name, "receipt": rc.Receipt, "independently_valid": rc.Valid})
 	}
-	a.add(st.submitted, nontrivial, "C19: valid triples (harness-signed) and every single-field corruption (hash bit flip, receipt edit, signature of 64/66 bytes, recovery id >= 4, r or s zero / = N, empty fields) submitted from 1-16 connections with the credit service ok / slow / hanging for seconds / dropping the connection after reading / answering 500 / down, plus a deterministic queue-full scenario (verifier held at a gate); a case is a submitted triple, non-trivial when its forwarding (or absence) at the fake credit service was decided after all forwarding goroutines had ended and compared byte for byte", samples...)
+	a.add(st.submitted, nontrivial, "C19: valid triples (harness-signed) and every single-field corruption (hash bit flip, receipt edit, signature of 64/66 bytes, recovery id >= 4, r or s zero / = N, empty fields) submitted from 1-16 connections with the credit service ok / slow / hanging for seconds / dropping the connection after reading / answering 500 / down, plus a deterministic queue-full scenario (verifier held at a gate) followed by rounds in which the verifier is stepped by one receipt and four connections submit at the same instant into the single free slot (one accepted, three too busy, everybody answered); a case is a submitted triple, non-trivial when its forwarding (or absence) at the fake credit service was decided after all forwarding goroutines had ended and compared byte for byte", samples...)
 }
 
 // partReceiptsRealBinary: the wiring in cmd/main.go (receipt channel, receipt
